@@ -1303,7 +1303,8 @@ type xjob struct {
 	p prog
 }
 
-func slipsEnabled() bool { return os.Getenv("VS_SLIPS") == "1" }
+// on by default since the three slips were corrected in the engine (session 4); VS_SLIPS=0 leaves the families out
+func slipsEnabled() bool { return os.Getenv("VS_SLIPS") != "0" }
 
 func onlyFamily(name string) bool {
 	s := os.Getenv("VS_FAMILIES") // comma-separated subset (experiments); "legacy" = the original family
